@@ -9,6 +9,4 @@ for d in seeded/*/; do
   timeout 3000 /venv/bin/python tools/run_seeded.py "$d" --skip-tests >> /tmp/finalpass.log 2>&1
   echo "done $d" >> /tmp/finalpass.log
 done
-rm -f sensitivity/RESULTS.json
-timeout 10000 /venv/bin/python tools/run_sensitivity.py >> /tmp/finalpass.log 2>&1
 echo ALLDONE >> /tmp/finalpass.log
